@@ -180,6 +180,10 @@ def check(pid, tier, seed):
                               "round trip rejected by Trace_RoundTrip (delimiter %r comment %r, %s):\nwritten file:\n%s\nexpected observable %s\nbefore writing      %s\nspec's parse of the written bytes %s\nafter reading back  %s (%s)" % (
                                   chr(it["d"]), chr(it["c"]), it["label"], written, canon(x["spec"]), canon(e["rt_before"]), canon(x.get("written_parsed")), canon(e["rt_after"]), e["rc_read"]))
         acc = len(good) - len(mism) - skipped
+    from . import p_econf
+    nmix = 150 if tier == "quick" else 4000
+    accmix = p_econf.run_mixed(exe, random.Random(seed + 77), nmix, verdict, "C07")
+    acc += accmix
     for it in items:
         if it.get("want") and features(it["want"], it) != "plain":
             nt += 1
@@ -187,8 +191,8 @@ def check(pid, tier, seed):
     samples = [{"history": it["label"], "d": chr(it["d"]), "c": chr(it["c"]), "expected": it["want"]} for it in items[500:502] if it.get("want")]
     cov = {"states": states, "transitions": states, "traces_validated_against_impl": ok + acc,
            "evaluations": len(items), "distinct_nontrivial": nt,
-           "rule": "MC_RoundTrip: every object reachable by <= %d setter calls over {group-less,A,B} x {x,y} x {\"\", v, 'a b', two-line value} (every interleaving, re-opened sections, overwrites) x (delimiter,comment) in {= #, : ;, space #, = ;}, and every object parsed from a conventional file of <= 3 lines (quoted values, comments before / after, continuation lines) x {=,space} x {#,;}: RoundTrips on the model; each exported case built in the library, written, read back, observable compared before/after (%d cases); + %d random histories of <= 40 calls and %d random conventional files whose written bytes are re-parsed by the specification (Trace_RoundTrip; %d outside the unambiguous class skipped). non-trivial = group-less key after a sectioned one, re-opened section, multi-line value or comment." % (
-               3 if tier == "quick" else 4, len(items) - 2 * nr, nr, nr, skipped),
+           "rule": "MC_RoundTrip: every object reachable by <= %d setter calls over {group-less,A,B} x {x,y} x {\"\", v, 'a b', two-line value} (every interleaving, re-opened sections, overwrites) x (delimiter,comment) in {= #, : ;, space #, = ;}, and every object parsed from a conventional file of <= 3 lines (quoted values, comments before / after, continuation lines) x {=,space} x {#,;}: RoundTrips on the model; each exported case built in the library, written, read back, observable compared before/after (%d cases); + %d random histories of <= 40 calls and %d random conventional files whose written bytes are re-parsed by the specification (Trace_RoundTrip; %d outside the unambiguous class skipped); + %d mixed API histories in which written files are read back, merged and written again, validated against the root specification Econf.tla. non-trivial = group-less key after a sectioned one, re-opened section, multi-line value or comment." % (
+               3 if tier == "quick" else 4, len(items) - 2 * nr, nr, nr, skipped, nmix),
            "samples": samples, "exhaustive": tier == "thorough", "skipped_outside_class": skipped,
            "trusted_base": ["TLC 1.8.0", "gcc ASan/UBSan", "drv.c"]}
     core.write_evidence(pid, tier, seed, "model_checking", cov,
